@@ -586,7 +586,10 @@ static int _bisect_forward_serialno(OggVorbis_File *vf,
        starts with a raw seek */
     pcmoffset = _initial_pcmoffset(vf,&vi);
 
-    ret=_bisect_forward_serialno(vf,next,vf->offset,end,endgran,endserial,
+    /* search on from the end of this link's headers, not from
+       vf->offset: if the link has no audio at all, the page just
+       consumed was the first page of the link after it */
+    ret=_bisect_forward_serialno(vf,next,dataoffset,end,endgran,endserial,
                                  next_serialno_list,next_serialnos,m+1);
     if(ret){
       vorbis_info_clear(&vi);
